@@ -111,6 +111,42 @@ def run(ctx):
         mask = rng.choice([0xFFFFFFFF, 0x80000000, 0xFF000000, 0xDEADBEEF, 1 << rng.randrange(32), rng.randrange(1 << 32),
                            rng.randrange(1 << 32) & rng.randrange(1 << 32), 1 << 32, None])
         check(np.array(vals, np.uint32), vals, 32, mask, rng.random() < 0.5, widthtok="w")
+    # ---- long acquisitions (whatever the implementation does for large inputs: chunking, low-memory paths): the same bit formula,
+    # evaluated with NumPy; sizes around the powers of two where such paths usually switch
+    for case in range(8 if ctx.quick else 60):
+        width = (8, 16, 32)[case % 3]
+        base = {8: np.uint8, 16: np.uint16, 32: np.uint32}[width]
+        nsamp = rng.choice([1 << 15, (1 << 15) + 1, (1 << 16) + 3, (1 << 17) + 5, 140000, 70000, 40000, 300001] if not ctx.quick else
+                           [(1 << 15) + 1, (1 << 16) + 3, (1 << 17) + 5, 140000])
+        vals = np.random.default_rng(ctx.seed * 1000 + case).integers(0, 1 << width, nsamp, dtype=np.uint64).astype(base)
+        mask = rng.choice([rng.randrange(1, (1 << width) - 1), 0x0F % (1 << width), (1 << (width - 1)) | 1, 0xF00F & ((1 << width) - 1) or 9])
+        big = case % 2 == 0
+        bits = [b for b in range(width) if (mask >> b) & 1]
+        nb = len(bits)
+        sig_bits = bits if big else bits[::-1]                    # signal i <- bit sig_bits[i]
+        col_bits = np.array([sig_bits[nb - 1 - c] for c in range(nb)], dtype=np.uint64)     # column c is signal n-1-c
+        want = ((vals.astype(np.uint64)[:, None] >> col_bits[None, :]) & 1).astype(np.uint8)
+        how = rng.choice(["from_port", "from_port", "from_ports", "list"])
+        if how == "from_ports":
+            o = outcome(lambda: W.from_ports(np.stack([vals, vals[::-1]]), [mask, mask], bitorder="big" if big else "little"))
+            got = None if o[0] != "ok" else [np.asarray(w.data) for w in o[1]]
+            ok = got is not None and np.array_equal(got[0], want) and np.array_equal(got[1], want[::-1])
+        else:
+            src = vals if how == "from_port" else vals.tolist()
+            if how == "list" and mask < (1 << (width // 2 if width > 8 else 0)):
+                src = vals             # a sequence takes its width from the mask; keep the array form when that would change the width
+            o = outcome(lambda: W.from_port(src, mask, bitorder="big" if big else "little"))
+            got = None if o[0] != "ok" else np.asarray(o[1].data)
+            ok = got is not None and got.shape == want.shape and np.array_equal(got, want)
+        ctx.case(("long", width, mask, big, nsamp, how))
+        ctx.count("input", "long-" + how)
+        if not ok:
+            bad = None
+            if o[0] == "ok" and how != "from_ports" and got.shape == want.shape:
+                bad = tuple(int(x) for x in np.argwhere(got != want)[0])
+            ctx.violation(what="from_port on a long acquisition", how=how, width=width, mask=mask, big=big, samples=nsamp, first_wrong=bad,
+                          observed=(show(o)[:160] if o[0] != "ok" else (f"shape {got.shape}" if bad is None else f"sample {int(vals[bad[0]])} column {bad[1]} -> {int(got[bad])}")),
+                          required="the bit formula of the property" if bad is None else f"{int(want[bad])}")
     # ---- representations: list, byte-swapped, strided, read-only; state dtypes; windows -------------------------
     for _ in range(250 if ctx.quick else 8000):
         width = rng.choice([8, 16, 32])
